@@ -237,6 +237,37 @@ def run(chk):
         if abs(par.dkmax - x) > Fraction(1, 2) + Fraction(1, 10 ** 9):
             chk.fail("tcut-dkmax", f"tcut={tcut!r}, dt={dts}: dkmax={par.dkmax} is not the nearest number of steps", {"dt": dts, "tcut": repr(tcut)})
 
+    # ---- (e) PT-TEBD: times of a run that starts part-way into the process tensors (start_step != 0) ----------
+    for i in range(24 if thorough else 8):
+        dts, sts = rng.choice(DT_LITS), rng.choice(START_LITS)
+        dt, start = float(dts), float(sts)
+        s0 = rng.choice([0, 1, 3, 7])
+        n = rng.randint(1, 5)
+        chain = oqupy.SystemChain([2, 2])
+        chain.add_site_hamiltonian(0, 0.5 * oqupy.operators.sigma("z"))
+        info = {"kind": "pttebd-times", "dt": dts, "start": sts, "start_step": s0, "n": n}
+        try:
+            tb = oqupy.PtTebd(initial_augmented_mps=oqupy.AugmentedMPS([_rho, _rho]), system_chain=chain, process_tensors=[None, None],
+                              parameters=oqupy.PtTebdParameters(dt=dt, order=1, epsrel=1e-6), dynamics_sites=[0],
+                              start_time=start, start_step=s0)
+            res = quiet(tb.compute, s0 + n, progress_type="silent")
+            times = [float(t) for t in res["time"]]
+            dtimes = [float(t) for t in res["dynamics"][0].times]
+        except Exception as ex:
+            chk.fail("driver-raises", f"PtTebd raised {ex!r}", info)
+            continue
+        chk.search_cases += 1
+        chk.count("pttebd_start_step_%d" % min(s0, 1))
+        want = [start + float(k) * dt for k in range(n + 1)]
+        if times != want or dtimes != want:
+            chk.fail("grid-labels", f"PtTebd(start_time={sts}, start_step={s0}, dt={dts}).compute({s0 + n}): reported times {times[:3]}... "
+                     f"are not start_time + k*dt, k=0..{n} ({want[:3]}...)", info)
+        exp = []
+        for t in times:
+            exp += fbits(t)
+        add(f"flat_map (fun k => let '(s,m,e) := fbits (tebd_time {float_lit(start)} {float_lit(dt)} (Z.of_nat k + {s0}) {s0}) in [s;m;e]) (seq 0 {n + 1})",
+            exp, info, ("tebd", dts, sts, s0, n))
+
     vals, errs = run_cases("C13", HEADER, exprs)
     for e in errs:
         chk.disagree("coq evaluation", e)
